@@ -6,6 +6,27 @@ props = [json.loads(l) for l in open(os.path.join(HERE, "properties.jsonl"))]
 
 MC = "model_checking"
 CHECKS = {
+
+ "C02": dict(
+   level=MC, design="DESIGN.md section 2, C02",
+   technique="stateless model checking: generated channel programs run on the real Gateway/Channel code over virtual pipes/sockets; exhaustive enumeration of interleavings (sync and statement level) and read chunkings within deviation bounds",
+   text="12 generated channel programs (1-2 channels created by remote_exec or newchannel+transfer, 1-2 sender threads per side, receive/iteration/callback receivers, 1-2 receivers) on virtual popen, plus socket and via topologies for core programs; every interleaving of user threads and both receiver threads with <=2 sync preemptions (<=1 statement-level) and <=1 non-default pick at blocking points; oracle: per channel and direction multiset equality, per-sender order, no leakage, no hang.",
+   note="Trusted: virtual pipe/socket model (BufferedWriter.write atomic, sendall a loop of partial sends), virtual sync primitives, discrete-event time. Process start-up is modelled, not executed. Bounded schedules and program sizes."),
+ "C03": dict(
+   level=MC, design="DESIGN.md section 2, C03",
+   technique="stateless model checking of send/close histories on the real channel code: exhaustive interleavings within preemption bounds",
+   text="Histories: n in {0,2} items then explicit close / end of remote_exec / reference drop with and without callback, both directions, 0-2 receivers and 0-1 waitclose callers, plus simultaneous close from both sides; all interleavings with <=2 sync preemptions / <=1 statement preemption. Oracle: receivers obtain exactly the items in order then EOFError repeatedly, nothing appears after waitclose returned, and once a close was observed (EOFError seen or waitclose returned) isclosed/send/waitclose(0)/second close behave as stated.",
+   note="CHANNEL_LAST_MESSAGE (dropped channel with callback) leaves the peer allowed to send by design; the closed-for-good clause is applied only where CHANNEL_CLOSE exists. Same trusted base as C02."),
+ "C07": dict(
+   level=MC, design="DESIGN.md section 2, C07",
+   technique="stateless model checking: failure kind x position x exception type x channel alive/dropped with a sibling channel, exhaustive interleavings within bounds",
+   text="Remote body raising after i of n items, worker-side and initiator-side callbacks raising on the i-th item, exception types ValueError/custom class/SystemExit, failing channel alive or dropped, sibling echo channel active; all interleavings with <=1 sync preemption and <=1 statement preemption. Oracle: peer gets earlier items then exactly one RemoteError with type, message and the raising line, then EOFError; failing side's waitclose raises a proper exception; sibling undisturbed; gateway still receiving and a fresh remote_exec round-trips.",
+   note="A callback that raises synchronously inside setcallback (already queued item) propagates to the caller and is outside the quantifier. For a dropped channel the peer may see plain EOF (LAST_MESSAGE precedes the error); the error must then be warned about."),
+ "C10": dict(
+   level=MC, design="DESIGN.md section 2, C10",
+   technique="stateless model checking of setcallback against the receiver thread: exhaustive interleavings (sync and statement level) within bounds",
+   text="setcallback issued at any moment relative to item delivery (schedule choice, plus a delayed variant where everything has arrived), after 0-1 items were taken with receive(), with and without endmarker; endings: explicit close, end of exec, remote error, worker killed (connection loss), gateway exit, still open; MultiChannel.make_receive_queue over two gateways. Bounds: <=2 sync preemptions, <=2 statement preemptions. Oracle: callback sequence == remaining items in order, endmarker exactly once and last iff requested and the conversation ended, receive() and a second setcallback refused.",
+   note="Histories use receive() or the callback at a time, not both concurrently. Same trusted base as C02."),
  "C09": dict(
    level=MC, design="DESIGN.md section 2, C09",
    technique="stateless model checking of the real WorkerPool under a controlled scheduler: exhaustive enumeration of thread interleavings within preemption/deviation bounds (sync-level and statement-level)",
